@@ -116,10 +116,17 @@ func genC18(t *rapid.T) C18Case {
 
 // c18Expr renders (op a1 .. an); operands without a literal form are always variables.
 func c18Expr(op string, args []m.V, asVar []bool) (string, map[string]interface{}) {
+	toks, vars := c18Operands(args, asVar)
+	return "(" + strings.Join(append([]string{op}, toks...), " ") + ")", vars
+}
+
+// c18Operands renders the operands (literals where they have a literal form and are not forced to be variables).
+func c18Operands(args []m.V, asVar []bool) ([]string, map[string]interface{}) {
 	vars := map[string]interface{}{}
+	var toks []string
 	var sb strings.Builder
-	sb.WriteString("(" + op)
 	for i, a := range args {
+		sb.Reset()
 		lit := false
 		switch a.X.(type) {
 		case int64, bool, string:
@@ -130,15 +137,15 @@ func c18Expr(op string, args []m.V, asVar []bool) (string, map[string]interface{
 			lit = true
 		}
 		if lit && !(i < len(asVar) && asVar[i]) {
-			sb.WriteString(" " + m.RenderVal(a.X))
+			sb.WriteString(m.RenderVal(a.X))
 		} else {
 			name := fmt.Sprintf("v%d", i)
 			vars[name] = a.X
-			sb.WriteString(" " + name)
+			sb.WriteString(name)
 		}
+		toks = append(toks, sb.String())
 	}
-	sb.WriteString(")")
-	return sb.String(), vars
+	return toks, vars
 }
 
 type mapFetcher map[string]interface{}
@@ -247,6 +254,29 @@ func checkC18(c C18Case, r *Rec) *Violation {
 	want, werr := env.Eval(tree)
 
 	src, vars := c18Expr(c.Op, c.Args, c.AsVar)
+	// a call of the same operator with too few operands (none, one) nested as the first or the last
+	// operand: the inner count error stands under every optimization subset (only and/or are
+	// documented to be merged with a nested call of their own kind)
+	if cat != "logic" && len(c.Args) >= 1 && len(c.Args) <= 4 {
+		toks, nvars := c18Operands(c.Args, c.AsVar)
+		for _, inner := range []string{"(" + c.Op + ")", "(" + c.Op + " " + toks[0] + ")"} {
+			for _, nested := range []string{
+				"(" + c.Op + " " + inner + " " + strings.Join(toks, " ") + ")",
+				"(" + c.Op + " " + strings.Join(toks, " ") + " " + inner + ")",
+			} {
+				for _, mask := range []int{0, MaskNest, 15, MaskFold | MaskNest} {
+					o := evalSrc(nested, nvars, mask)
+					if o.Panic != nil {
+						return Violf("C18: %s panics (config %s): %v", nested, maskName(mask), o)
+					}
+					if o.Err == nil {
+						return Violf("C18: %s returns %v (config %s): the nested call has too few operands, which is an error", nested, o, maskName(mask))
+					}
+				}
+			}
+		}
+		r.Class("nested-call-with-too-few-operands")
+	}
 	var first Outcome
 	for k, mask := range []int{0, MaskFold, MaskFast, 15} {
 		o := evalSrc(src, vars, mask)
@@ -425,7 +455,7 @@ func sweepC18(tier string, shard, shards int, emit func(C18Case)) {
 
 var propC18 = Prop[C18Case]{
 	ID:    "C18",
-	Rule:  "single-operator expressions (op a1..an) for every arithmetic/logic/comparison operator and alias, n = 0..6, operands from the int64 extremes / small ints / booleans / strings with a wrong-typed operand (string, bool, int, list, nil, float, set) at any position with probability 1/10 each, passed as literals and as variables, configs none/folding/fast/all. Oracles: independent operator model through R (and/or short-circuit), plus model-free laws on the engine (alias = named form, ne=!eq, le=!gt, ge=!lt, between = ge&&le, n-ary fold = nested binary fold, a-b = a+(-1*b), n-ary eq = pairwise). Sweep: exhaustive operator x count x pool^n for n<=3 (quick: 8-value pool; thorough: 12-value pool). Non-trivial = an operand at an int64 extreme, a zero divisor at position >= 3, or an expected error (wrong count/type); distinct by expression + operands",
+	Rule:  "single-operator expressions (op a1..an) for every arithmetic/logic/comparison operator and alias, n = 0..6, operands from the int64 extremes / small ints / booleans / strings with a wrong-typed operand (string, bool, int, list, nil, float, set) at any position with probability 1/10 each, passed as literals and as variables, configs none/folding/fast/all. Oracles: independent operator model through R (and/or short-circuit), plus model-free laws on the engine (alias = named form, ne=!eq, le=!gt, ge=!lt, between = ge&&le, n-ary fold = nested binary fold, a-b = a+(-1*b), n-ary eq = pairwise). Sweep: exhaustive operator x count x pool^n for n<=3 (quick: 8-value pool; thorough: 12-value pool). Also, for arithmetic, ordering and equality operators: the same operator called with no or one operand, nested as the first or the last operand, is an error under every subset tried (only and/or are documented to merge with nested calls of their kind). Non-trivial = an operand at an int64 extreme, a zero divisor at position >= 3, or an expected error (wrong count/type); distinct by expression + operands",
 	Gen:   genC18,
 	Check: checkC18,
 	Sweep: sweepC18,
